@@ -522,7 +522,10 @@ def turns_mc(workdir, name, ops, switches=None, invariants=("InvCore", "InvRest"
     err = None
     if "Model checking completed. No error has been found." not in out:
         m = re.search(r"Error: (Invariant (\S+) is violated|.*)", out)
-        err = m.group(1) if m else "TLC did not complete"
+        if not m:
+            # killed by the timeout or by the system: no verdict (exit 2), never a violation
+            raise ToolError("TLC did not complete on %s (timeout %ss or killed):\n%s" % (mod, timeout, out[-1500:]))
+        err = m.group(1)
     return {"stats": parse_mc(out), "error": err, "out": out, "trace": [l for l in out.splitlines() if l.startswith("State ")]}
 
 
@@ -573,6 +576,9 @@ def actors_mc(workdir, name, procs, subs=("s1",), cap=2, switches=None, invarian
     err = None
     m = re.search(r"Error: (Invariant (\S+) is violated|Deadlock reached|Temporal properties were violated|.*)", out)
     if "Model checking completed. No error has been found." not in out:
-        err = m.group(1) if m else "TLC did not complete"
+        if not m:
+            # killed by the timeout or by the system: no verdict (exit 2), never a violation
+            raise ToolError("TLC did not complete on %s (timeout %ss or killed):\n%s" % (mod, timeout, out[-1500:]))
+        err = m.group(1)
     trace = [l for l in out.splitlines() if l.startswith("State ")]
     return {"stats": parse_mc(out), "error": err, "out": out, "trace": trace, "config": {"procs": procs, "cap": cap, "switches": sw}}
